@@ -13,13 +13,13 @@ struct Send { int dst = 0, flags = 0, src_own = 0; };
 struct Sender { int in_pool = 0, pool_idx = 0; std::vector<Send> sends; };
 struct Fault { int fn = 0, k = 0, err = 0; };
 struct MsgCase {
-  int nthreads = 1, skip_first = 0, stall_dst = 255, burst = 0, burst_flags = 0, late_burst = 0, late_dst = 0, race_n = 0, race_dst = 0, race_flags = 0;
+  int nthreads = 1, skip_first = 0, stall_dst = 255, burst = 0, burst_flags = 0, late_burst = 0, late_dst = 0, race_n = 0, race_dst = 0, race_flags = 0, pool_flags = 0, late_self = 0;
   std::vector<Sender> senders;
   Bytes plan;
   std::vector<Fault> faults;
   std::string ser() const {
     Writer w;
-    w.i("nthreads", nthreads).i("skip_first", skip_first).i("stall_dst", stall_dst).i("burst", burst).i("burst_flags", burst_flags).i("late_burst", late_burst).i("late_dst", late_dst).i("race_n", race_n).i("race_dst", race_dst).i("race_flags", race_flags);
+    w.i("nthreads", nthreads).i("skip_first", skip_first).i("stall_dst", stall_dst).i("burst", burst).i("burst_flags", burst_flags).i("late_burst", late_burst).i("late_dst", late_dst).i("race_n", race_n).i("race_dst", race_dst).i("race_flags", race_flags).i("pool_flags", pool_flags).i("late_self", late_self);
     w.i("nsenders", (long long)senders.size());
     for (size_t i = 0; i < senders.size(); i++) {
       std::vector<long long> v{senders[i].in_pool, senders[i].pool_idx};
@@ -38,6 +38,7 @@ struct MsgCase {
     c.nthreads = (int)r.i("nthreads", 1); c.skip_first = (int)r.i("skip_first"); c.stall_dst = (int)r.i("stall_dst", 255);
     c.burst = (int)r.i("burst"); c.burst_flags = (int)r.i("burst_flags"); c.late_burst = (int)r.i("late_burst"); c.late_dst = (int)r.i("late_dst");
     c.race_n = (int)r.i("race_n"); c.race_dst = (int)r.i("race_dst"); c.race_flags = (int)r.i("race_flags");
+    c.pool_flags = (int)r.i("pool_flags"); c.late_self = (int)r.i("late_self");
     int n = (int)r.i("nsenders");
     for (int i = 0; i < n; i++) {
       auto v = r.iv(("s" + std::to_string(i)).c_str());
@@ -67,7 +68,7 @@ static void fill_plans(tp_plans &p, const Bytes &plan, const std::vector<Fault> 
 }
 
 struct SendInfo {
-  bool used = false, racing = false;
+  bool used = false, racing = false, after_stop = false;
   int sender = -1, seq = -1, dst = 0, flags = 0;
   long call = -1, ret = -1;
   long long rc = 0;
@@ -89,19 +90,24 @@ static Verdict evaluate(const MsgCase &c, const c05_out &o, bool &hang) {
       x.used = true; x.sender = (int)s; x.seq = (int)j;
       x.dst = c.senders[s].sends[j].dst; x.flags = c.senders[s].sends[j].flags & 7;
     }
-  for (uint32_t b = o.nsends - o.nrace; b < o.nsends; b++) {  // sends racing with tp_shutdown(): relaxed oracle below
+  for (uint32_t b = o.nsends - o.nself; b < o.nsends; b++) {  // self-sends made by a callback that runs after the thread's stop message
+    SendInfo &x = si[b];
+    x.used = true; x.after_stop = true; x.sender = (int)c.senders.size() + 3; x.seq = (int)(b - (o.nsends - o.nself));
+    x.dst = c.late_dst % c.nthreads; x.flags = (x.seq & 1) ? 2 : 0;
+  }
+  for (uint32_t b = o.nsends - o.nrace; b < o.nsends && o.nself == 0; b++) {  // sends racing with tp_shutdown(): relaxed oracle below
     SendInfo &x = si[b];
     x.used = true; x.racing = true; x.sender = (int)c.senders.size() + 2; x.seq = (int)(b - (o.nsends - o.nrace));
     x.dst = c.race_dst % c.nthreads; x.flags = c.race_flags & 7;
   }
-  for (uint32_t b = (uint32_t)c.senders.size() * C05_MAX_SENDS; b < o.nsends - o.nlate - o.nrace; b++) {
+  for (uint32_t b = (uint32_t)c.senders.size() * C05_MAX_SENDS; b < o.nsends - o.nlate - o.nrace - o.nself; b++) {
     SendInfo &x = si[b];
     x.used = true; x.sender = (int)c.senders.size(); x.seq = (int)(b - c.senders.size() * C05_MAX_SENDS);
     x.dst = c.stall_dst; x.flags = c.burst_flags & 7;
   }
-  for (uint32_t b = o.nsends - o.nlate - o.nrace; b < o.nsends - o.nrace; b++) {  // late burst: plain sends to a stalled, still running thread after tp_shutdown()
+  for (uint32_t b = o.nsends - o.nlate - o.nrace - o.nself; b < o.nsends - o.nrace - o.nself; b++) {  // late burst: plain sends to a stalled, still running thread after tp_shutdown()
     SendInfo &x = si[b];
-    x.used = true; x.sender = (int)c.senders.size() + 1; x.seq = (int)(b - (o.nsends - o.nlate - o.nrace));
+    x.used = true; x.sender = (int)c.senders.size() + 1; x.seq = (int)(b - (o.nsends - o.nlate - o.nrace - o.nself));
     x.dst = c.late_dst % c.nthreads; x.flags = 0;
   }
   std::set<uint64_t> pool_ptrs;
@@ -131,6 +137,15 @@ static Verdict evaluate(const MsgCase &c, const c05_out &o, bool &hang) {
     bool running = is_pvt ? true : !(c.skip_first && d == 0);
     bool self = (x.flags & 1) && x.call_cur == dstptr;
     if (is_pvt) pvt_sends++;
+    if (x.after_stop) {
+      // the destination (= the sender's own thread) has processed its stop message: it is not running any more. A plain send
+      // must be refused (nothing can deliver it), FORCE must run the callback directly; in any case success <=> ran exactly once
+      if (x.rc == 0) PBT_REQUIRE(x.cbs.size() == 1, "LOST: self-send " << id << " (flags " << x.flags << ") issued after the thread's stop message returned 0 but its callback ran " << x.cbs.size() << " time(s)");
+      else PBT_REQUIRE(x.cbs.empty(), "self-send " << id << " (flags " << x.flags << ") issued after the thread's stop message returned " << x.rc << " but its callback ran");
+      if ((x.flags & 2)) PBT_REQUIRE(x.rc == 0, "self-send " << id << " with FORCE to the stopping thread returned " << x.rc << " instead of calling directly");
+      label("self_send_after_stop_message");
+      continue;
+    }
     if (x.racing) {
       // The send raced with tp_shutdown(): whether the destination was still running when the library looked is not known to the
       // harness, and the library's look-then-write is not atomic (an accepted message can arrive after the thread's last look
@@ -208,6 +223,7 @@ static Verdict evaluate(const MsgCase &c, const c05_out &o, bool &hang) {
   if (c.stall_dst != 255 && c.burst > 2048) label("queue_full_burst");
   if (o.nlate) label(o.nlate > 1024 ? "late_burst_after_shutdown_gt_1024" : "late_burst_after_shutdown");
   if (o.nrace) label("sends_racing_with_shutdown");
+  if (c.pool_flags & 2) label("pool_with_CLOEXEC");
   for (int p : {1, 2, 3}) if (o.res.vp_hits[p]) label("vp" + std::to_string(p) + "_hit");
   if (overlap || inj || failed || direct_taken || (pvt_sends && c.nthreads >= 2) || o.nlate || o.nrace) nontrivial_cur();
   return Verdict::pass();
@@ -222,7 +238,8 @@ static Verdict run_case(const MsgCase &c) {
   scn->burst = (uint16_t)std::min(4000, c.burst);
   scn->burst_flags = (uint8_t)c.burst_flags;
   scn->late_burst = (uint16_t)std::min(1990, std::max(0, c.late_burst)); scn->late_dst = (uint8_t)c.late_dst;
-  scn->race_n = (uint8_t)std::min(200, std::max(0, c.race_n)); scn->race_dst = (uint8_t)c.race_dst; scn->race_flags = (uint8_t)c.race_flags;  // bits 0-2 message flags, bit 3: hold one send at the state-test/write gap
+  scn->race_n = (uint8_t)std::min(200, std::max(0, c.race_n)); scn->race_dst = (uint8_t)c.race_dst; scn->pool_flags = (uint8_t)c.pool_flags; scn->late_self = (uint8_t)(c.late_self && c.late_burst > 0);
+  scn->race_flags = (uint8_t)c.race_flags;  // bits 0-2 message flags, bit 3: hold one send at the state-test/write gap
   scn->nsenders = (uint8_t)std::min<size_t>(c.senders.size(), C05_MAX_SENDERS);
   for (int i = 0; i < scn->nsenders; i++) {
     scn->senders[i].in_pool = (uint8_t)c.senders[i].in_pool;
@@ -285,13 +302,14 @@ static rc::Gen<MsgCase> genCase() {
     if (*range<int>(0, 7) == 0) {
       // sends accepted between tp_shutdown() and the moment the destination sees its stop message (it is held in a callback)
       c.late_dst = *range<int>(c.skip_first ? 1 : 0, std::max(c.skip_first ? 1 : 0, c.nthreads - 1));
-      if (c.late_dst < c.nthreads && !(c.skip_first && c.late_dst == 0)) c.late_burst = *rc::gen::element(3, 200, 1000, 1100, 1500, 1900);
+      if (c.late_dst < c.nthreads && !(c.skip_first && c.late_dst == 0)) { c.late_burst = *rc::gen::element(3, 200, 1000, 1100, 1500, 1900); c.late_self = *range<int>(0, 1); }
     }
     if (c.late_burst == 0 && *range<int>(0, 5) == 0) {
       // an external thread keeps sending to one started thread while tp_shutdown() is called
       c.race_dst = *range<int>(c.skip_first ? 1 : 0, std::max(c.skip_first ? 1 : 0, c.nthreads - 1));
       if (c.race_dst < c.nthreads && !(c.skip_first && c.race_dst == 0)) { c.race_n = *range<int>(12, 60); c.race_flags = *rc::gen::element(0, 0, 2, 4, 6) | (*range<int>(0, 2) == 0 ? 8 : 0); }
     }
+    c.pool_flags = *rc::gen::weightedElement<int>({{3, 0}, {1, 1}, {2, 2}, {1, 3}});  // pool settings: BIND2CPU, CLOEXEC
     c.plan = *bytes_upto(24);
     int nf = *rc::gen::weightedElement<int>({{3, 0}, {3, 1}, {2, 2}, {1, 4}});
     size_t total = 0;
